@@ -1,0 +1,8 @@
+//go:build !verif
+
+// Package verifhook provides crash-point markers for the verification
+// harness. Without the "verif" build tag Point is an empty, inlineable no-op.
+package verifhook
+
+// Point marks a durable step of cache population. No-op in normal builds.
+func Point(name string) {}
